@@ -162,6 +162,26 @@ func runSvcChunk(r *h.Result, scs []*scenario, base int, judge func(*h.Result, *
 	var cases []any
 	for i, res := range results {
 		sc := scs[i]
+		if res.err != nil && res.timedOut {
+			// a deadline passed: clock-based. The op sequence ALONE, with 10× the time, decides (c0102_wait.go)
+			first := res
+			c0102Confirm(func(scale int) bool {
+				cp := *sc
+				cp.scale = scale
+				res = runScenario(&cp)
+				return res.err != nil && res.timedOut
+			})
+			if res.err != nil && res.timedOut {
+				r.Count("svc:deadline-missed-confirmed")
+				r.Violate("C01/service-call-never-returned",
+					fmt.Sprintf("%s service: %v (shown again by the op sequence alone with %d× the deadline); ops played: %s", sc.Kind, res.err,
+						c0102ConfirmScale, trunc(strings.Join(res.opsSoFar, ";"), 300)),
+					map[string]any{"stream": "svc", "scenario": sc, "ops_played": res.opsSoFar, "first_run": first.err.Error()})
+				continue
+			}
+			r.Count("svc:deadline-missed-not-confirmed")
+			results[i] = res
+		}
 		if res.err != nil {
 			return fmt.Errorf("scenario %d: %v", base+i, res.err)
 		}
